@@ -501,7 +501,7 @@ def run(ctx: fw.Ctx) -> int:
     ctx.differential('keepalive', HEADER, ka, shard=150)
     ctx.cov['exhaustive'] = {'keepalive': 'lifetime 0..120 x jitter 5..10 = 726 runs of the real keepalive()'}
 
-    pn.run_networks(ctx, NET_HEADER, ctx.scale(120, 1000))
+    pn.run_networks(ctx, NET_HEADER, ctx.scale(120, 800))
     pn.run_worlds(ctx, ctx.scale(40, 600))
     return ctx.finish(RULE, level_note=[
         'whole-operator scenarios (kv.sim + kv.fakeapi: real kopf.operator() x 2-3 on one ClusterKopfPeering) are monitor-only',
